@@ -416,7 +416,7 @@ def acceptItem (g : Graph) (c : Cont) (key : Key) : Except Err (Nat × String) :
                 | some l => .ok (l.2 == k)
                 | none => .ok false
               | none => .ok false
-          | .sourceLink, some b => .ok (inSourceTree g b id)
+          | .sourceLink, some b => .ok (inSourceTree g b id && inSourceTreeObj g b k)
           | _, _ => .ok false
         match accepted with
         | .error e => .error e
